@@ -29,9 +29,23 @@ Fault == Is("fault") /\ cut' = TRUE /\ UNCHANGED <<streams, lost, bad>>
 Lost == /\ Is("w_lost") /\ lost' = lost + 1
         /\ bad' = IF ~cut /\ streams > 0 /\ "max_ports" \notin DOMAIN Ev THEN Flag("C09", "a value was lost on a healthy connection over a stream transport") ELSE bad
         /\ UNCHANGED <<streams, cut>>
-Known == {"reset", "transport", "st_oversize_emitted", "fault", "w_lost"}
+\* ---- hostile peer: a frame longer than the victim's max_frame_length
+Item == /\ Is("sh_item")
+        /\ bad' = IF ~Ev.sent \/ Ev.got # Ev.v THEN Flag("C09", "item did not arrive intact over the stream transport") ELSE bad
+        /\ UNCHANGED <<streams, lost, cut>>
+Inject == Is("sh_inject") /\ cut' = TRUE /\ UNCHANGED <<streams, lost, bad>>
+ConnEnd == /\ Is("sh_conn_end")
+           /\ bad' = IF Ev.ok THEN Flag("C08", "connection ended without error after a frame exceeding the frame length cap") ELSE bad
+           /\ UNCHANGED <<streams, lost, cut>>
+After == /\ Is("sh_after")
+         /\ bad' = IF Ev.conn_pending > 0 THEN Flag("C08", "endpoint kept waiting for (buffering) a frame longer than its frame length cap instead of failing")
+                    ELSE IF Ev.send_ok THEN Flag("C08", "a send succeeded after the connection was terminated by an oversized frame")
+                    ELSE IF ~Ev.recv_err THEN Flag("C08", "a receive did not fail after the connection was terminated by an oversized frame")
+                    ELSE bad
+         /\ UNCHANGED <<streams, lost, cut>>
+Known == {"sh_item", "sh_inject", "sh_conn_end", "sh_after", "reset", "transport", "st_oversize_emitted", "fault", "w_lost"}
 Skip == l <= Len(Rec) /\ Ev.ev \notin Known /\ l' = l + 1 /\ UNCHANGED <<streams, lost, cut, bad>>
-Next == Reset \/ Transport \/ Oversize \/ Fault \/ Lost \/ Skip
+Next == Item \/ Inject \/ ConnEnd \/ After \/ Reset \/ Transport \/ Oversize \/ Fault \/ Lost \/ Skip
 Spec == Init /\ [][Next]_vars
 Inv_C09 == bad = <<>> \/ bad[1] # "C09"
 Inv_C08 == bad = <<>> \/ bad[1] # "C08"
